@@ -97,12 +97,28 @@ def observe(c):
             tilt = (mrad(tx[1], Z), abtem.distributions.from_values(np.array([mrad(b, Z) for b in ty])))
             table = {(j,): (tx[1], ty[j]) for j in range(3)}
             lead = (3,)
+        elif form.startswith("sequence_"):
+            tilt = "sequence"
+            table = {(): (tx[0], ty[0])}
+            lead = ()
         else:
             raise Machinery(form)
         vac = vacuum(grid, dz)
 
         def run(t, lazy):
-            w = probe(grid, t, **other).multislice(vac, scan=scan, lazy=lazy)
+            if isinstance(t, str):
+                from abtem.tilt import BeamTilt, BeamTilt2D
+                X, Y = mrad(tx[0], Z), mrad(ty[0], Z)
+                if form == "sequence_builder_then_y":
+                    w = BeamTilt2D(0.0, Y).apply(probe(grid, (X, 0.0)).build(scan=scan, lazy=lazy))
+                elif form == "sequence_x_then_y":
+                    w = BeamTilt((0.0, Y)).apply(BeamTilt((X, 0.0)).apply(probe(grid, (0.0, 0.0)).build(scan=scan, lazy=lazy)))
+                else:
+                    w = BeamTilt((0.25 * X, Y)).apply(probe(grid, (0.75 * X, 0.0)).build(scan=scan, lazy=lazy))
+                    w = BeamTilt2D(0.0, 0.0).apply(w)
+                w = w.multislice(vac)
+            else:
+                w = probe(grid, t, **other).multislice(vac, scan=scan, lazy=lazy)
             w = w.compute() if lazy else w
             return np.asarray(w.array)
         got = ref = None
@@ -187,7 +203,7 @@ CHECK_DEADLOCK FALSE
 def run(ctx: Ctx):
     quick = ctx.tier == "quick"
     ctx.rule = ("scenarios = how the tilt is given (base tilt, array of (tx, ty) pairs, one distribution per axis, one distribution and "
-                "one scalar, pairs / per-axis next to a defocus ensemble axis) x thickness lists (1-4 slices, unequal) x grid (square, "
+                "one scalar, pairs / per-axis next to a defocus ensemble axis, tilts accumulated by successive tilt transforms on already tilted waves) x thickness lists (1-4 slices, unequal) x grid (square, "
                 "rectangular) x integer / fractional pixel shifts x sign x lazy, enumerated by TLC; an asymmetric probe (coma) "
                 "through vacuum; non-trivial = every scenario (non-zero tilts)")
     ctx.design_check("MCTilt", cfg_text=MODEL_CFG.format(k=2 if quick else 3, t="MC_TangentsQuick" if quick else "MC_Tangents"),
@@ -200,7 +216,14 @@ def run(ctx: Ctx):
     cases.sort(key=lambda c: json.dumps(c, sort_keys=True))
     rng.shuffle(cases)
     if quick:
-        cases = cases[:60]
+        # every (form, fractional, lazy) stratum at every seed, then the seeded remainder
+        seen, first, rest = set(), [], []
+        for c in cases:
+            k = (c["form"], c["fractional"], c["lazy"])
+            (rest if k in seen else first).append(c)
+            seen.add(k)
+        cases = first + rest[:24]
+        ctx.notes["strata"] = len(seen)
     else:
         ctx.exhaustive = True
     evs = []
